@@ -68,6 +68,16 @@ def run(tier):
         cases.append((cid, src.encode(), "valid-program")); valid.append(cid)
     for i in range(n // 16):
         cases.append(("d%d" % i, dense(rng, i % 7, rng.choice([1, 2, 3, 10, 50, 300])).encode(), "dense"))
+    # strings and comments full of escapes and multi-byte characters (the dumps slice the source by byte offsets)
+    pieces = ["\\u{48}", "\\u{20ac}", "\\u{1F600}", "\\xC3\\xA9", "\\n", "\\\\", "\\\"", "é", "€", "😀", "ü", "a", " ", "x1", "\\0", "\\t"]
+    for i in range(n // 16):
+        lits = []
+        for _ in range(rng.randint(1, 4)):
+            lits.append('"' + "".join(rng.choice(pieces) for _ in range(rng.randint(0, 8))) + '"')
+        src = "// é€😀 comment\n" * rng.randint(0, 2) + "".join("const S%d: []char8 = %s;\n" % (j, l) for j, l in enumerate(lits))
+        src += "fn main()\n{\n\tvar c: char8 = '%s';\n\tprint!(%s, \"ü\");\n}\n" % (rng.choice(["a", "\\x41", "\\n", "\\'"]), rng.choice(lits))
+        cid = "u%d" % i
+        cases.append((cid, src.encode("utf-8"), "unicode-strings")); valid.append(cid)
     L = 2 if tier == "quick" else 3
     k = 0
     for n_ in range(1, L + 1):
@@ -150,7 +160,7 @@ def run(tier):
         ck.violation("tie-broken:proof", "Props/C15.v no longer checks", getattr(ck, "proof_output", "")[-2000:])
     ck.coverage.update(
         evaluations=2 * len(cases), distinct_nontrivial=len({c[1] for c in cases}), exhaustive_part=ntok_exh,
-        rule="every input through lex -> token dump -> parse -> errors -> header -> tree and header dumps (staged as main.rs does: no parse after lexical errors, no header or dumps after syntax errors) in isolated workers, in a debug build (overflow checks, debug assertions) AND a release build, results compared: mutated corpus, generated programs with faults, token soup, CRLF variants, random bytes and random bytes over a lexically dense alphabet (NUL, 0xFF, multi-byte), generated valid programs (must be accepted), inputs of extreme node density (x+x+..., &&&&, nested parentheses, long member/index chains, argument / array / structure lists), ALL token sequences up to length %d over %d tokens, inputs of 64-256 KiB; checked: no panic / signal / timeout, nodes <= %d + %d * tokens (the regenerated capacity), tokens <= bytes + 2, lexical verdict = 'the extracted lexer model finds an Error token', node / declaration / error counts = Model/DeltaNodes.v run on the token kinds the real lexer produced" % (L, len(TOKENS), ctx, factor),
+        rule="every input through lex -> token dump -> parse -> errors -> header -> tree and header dumps (staged as main.rs does: no parse after lexical errors, no header or dumps after syntax errors) in isolated workers, in a debug build (overflow checks, debug assertions) AND a release build, results compared: mutated corpus, generated programs with faults, token soup, CRLF variants, random bytes and random bytes over a lexically dense alphabet (NUL, 0xFF, multi-byte), generated valid programs and programs full of string escapes and multi-byte characters (must be accepted), inputs of extreme node density (x+x+..., &&&&, nested parentheses, long member/index chains, argument / array / structure lists), ALL token sequences up to length %d over %d tokens, inputs of 64-256 KiB; checked: no panic / signal / timeout, nodes <= %d + %d * tokens (the regenerated capacity), tokens <= bytes + 2, lexical verdict = 'the extracted lexer model finds an Error token', node / declaration / error counts = Model/DeltaNodes.v run on the token kinds the real lexer produced" % (L, len(TOKENS), ctx, factor),
         outcomes=dict(stats), input_kinds=dict(kinds), problems=bad, node_model_compared=ncmp, max_nodes_per_token=round(maxratio[0], 3), node_capacity="%d + %d * tokens" % (ctx, factor),
         samples=[dict(kind=cases[0][2], input=repr(cases[0][1][:200]), outcome=impl.get(cases[0][0], ["?"])[:5])])
     return ck.finish()
